@@ -546,6 +546,33 @@ def gen_unknown(rng, known_numbers, n=None):
     return bytes(out)
 
 
+def mutate_in_place(schema, ci, m, rng):
+    """change message m WITHOUT assigning to one of its own attributes (list append / dict store / assignment inside a nested
+    message): the state changes behind Message.__setattr__'s back. Returns the kind of mutation or None when m has no such field."""
+    c = schema.classes[ci]
+    cands = [f for f in c.fields if f.card in ("repeated", "map") or (f.card == "plain" and f.elem.kind == "msg" and f.group is None)]
+    rng.shuffle(cands)
+    for f in cands:
+        try:
+            cur = getattr(m, f.name)
+            if f.card == "repeated":
+                cur.append(gen_elem(schema, f.elem, rng, 2))
+                return "append:" + f.name
+            if f.card == "map":
+                cur[gen_scalar(f.key.pt, rng)] = gen_elem(schema, f.elem, rng, 2)
+                return "dict-store:" + f.name
+            inner = schema.classes[f.elem.ref]
+            scal = [g for g in inner.fields if g.card == "plain" and g.elem.kind == "scalar" and g.group is None]
+            if not scal:
+                continue
+            g = rng.choice(scal)
+            setattr(cur, g.name, gen_scalar(g.elem.pt, rng))
+            return "nested-assign:" + f.name
+        except (AttributeError, Unmodellable):
+            continue
+    return None
+
+
 def _gen_group_body(rng, depth):
     """contents of a (proto2) group, without its start / end tags: usually one varint field; sometimes fields of the other
     wire types and groups nested inside the group, up to three deep (seeded change C10-5: a group skipper that loses the
